@@ -171,9 +171,11 @@ def _directed_leads(workdir):
 
 
 COVER_QUICK = [(1, 2, 1, False), (1, 2, 1, True), (2, 1, 1, False)]
-# measured: (2,2,2) in both modes is 5.9 M transitions / 1.3 M walks - 10 min to generate, 8 min to play, and more than
-# 20 min to validate against DiodeImpl: kept out; the thorough tier covers every configuration below completely
-COVER_THOROUGH = COVER_QUICK + [(2, 1, 1, True), (1, 3, 2, False), (1, 3, 2, True), (2, 2, 1, False), (2, 2, 1, True), (3, 1, 1, False)]
+# measured number of transitions (the graph includes the observation variables, which is what makes it large):
+# (2,1,1,T) 2 k, (1,3,2,F) 5 k, (1,3,2,T) 0.8 k, (1,4,2,F) 16 k, (3,1,1,T) 182 k, (2,2,1,T) 479 k - covered in the thorough tier;
+# (3,1,1,F) 3.6 M, (2,2,1,F) 5.5 M, (2,2,2,*) 5.9 M: generating, playing and validating walks over those takes more than an
+# hour and tens of GB - left to simulation and free walks
+COVER_THOROUGH = COVER_QUICK + [(2, 1, 1, True), (1, 3, 2, False), (1, 3, 2, True), (1, 4, 2, False), (3, 1, 1, True), (2, 2, 1, True)]
 EDGE_RE = re.compile(r'^(-?\d+) -> (-?\d+) \[label="(\w+)"')
 
 
